@@ -40,14 +40,14 @@ var redAlpha = []opk{{'S', "a"}, {'S', "b"}, {'L', "a"}, {'D', "a"}, {'N', ""}, 
 
 // event is one completed operation of the history.
 type event struct {
-	tid, seq   int
-	op         opk
-	val        int // stored value (Store)
-	call, ret  int64
-	outV       interface{}
-	outOK      bool
-	outN       int
-	outS       string
+	tid, seq  int
+	op        opk
+	val       int // stored value (Store)
+	call, ret int64
+	outV      interface{}
+	outOK     bool
+	outN      int
+	outS      string
 }
 
 type harness struct {
